@@ -88,6 +88,23 @@ def events(rng, fs, kind, inside=False, early=False):
     return onsets, durs, amps
 
 
+ADTYPES = ["uint8", "uint16", "int64", "int8", "float32", "uint32"]
+
+
+def _amp_dtype(rng, c):
+    """amplitudes as integer counts / narrow types (how a caller builds them from an event table): with some
+    probability the amplitudes become small non-negative integers handed over in an integer or float32 dtype"""
+    if c["amps"] and rng.random() < 0.3:
+        c["amps"] = [float(rng.choice([1, 1, 2, 3, 5])) for _ in c["amps"]]
+        c["adtype"] = rng.choice(ADTYPES)
+
+
+def amps_array(c):
+    import numpy as np
+    a = np.array(c["amps"], dtype=float)
+    return a.astype(c["adtype"]) if c.get("adtype") else a
+
+
 def gen_sample(rng, count):
     out = []
     for _ in range(count):
@@ -104,6 +121,7 @@ def gen_sample(rng, count):
         if rng.random() < 0.05:
             on, du, am = [], [], []
         c = {"kind": "sample", "onsets": on, "durs": du, "amps": am}
+        _amp_dtype(rng, c)
         c.update(fs)
         out.append(c)
     return out
@@ -133,6 +151,7 @@ def gen_regressor(rng, count):
         c = {"kind": "regressor", "hrf": hrf,
              "fir_delays": sorted(rng.sample(range(0, 5), rng.choice([1, 2, 3]))),
              "onsets": on, "durs": du, "amps": am, "shift": rng.choice([1, 2, 3])}
+        _amp_dtype(rng, c)
         c.update(fs)
         out.append(c)
     return out
